@@ -41,7 +41,14 @@ def read_spbuf(ex, st, p, ty, n):
     o = r.owner
     t = CT(ty)
     if t.kind != 'int':
-        return None
+        # an entry of the values array: named by its position
+        import hashlib
+        offs = z3.simplify(p.off).sexpr()
+        lname = 'mem_%s[%s]' % (r.name, hashlib.md5(
+            offs.encode()).hexdigest()[:10])
+        fv = FltV(z3.Real(lname), ty)
+        st.ghost[('floadrec', lname)] = (r, p.off, 8, fv.t)
+        return fv
     idx = z3.simplify(p.off / 8) if False else None
     off = p.off
     k = z3.Int('?')
@@ -86,3 +93,214 @@ FUNCS = {'spmatrix_subscr': {
                                      'spa2compressed', 'free_ccs',
                                      'SpMatrix_NewFromSpMatrix',
                                      'convert_ccs', 'without contract']}}}
+
+
+# ----------------------------------------------------------------- sp_gemv
+# y := alpha*op(A)*x + beta*y for the m x n block of a sparse A that starts
+# at linear offset oA (row oi = oA mod nrows, column oj = oA div nrows), dense
+# strided x and y (base.gemv with a sparse first argument; matrices.rst /
+# blas.rst).  Contract of the kernels sp_dgemv / sp_zgemv:
+#   requires   m, n >= 0, oA >= 0, nrows >= 1 (if m != 0), oi + m <= nrows,
+#              oj + n <= ncols, ix != 0, iy != 0, x (y) holds the strided
+#              vector of length n resp. m ('N') or m resp. n ('T','C')
+#   ensures    memory safety (all reads of colptr / rowind / values, x, y in
+#              bounds) and the DEFINITION: the column loop runs over exactly
+#              j = oj .. oj+n-1, the entry loop over the stored entries of
+#              that column, and an entry (r, j) is used iff oi <= r < oi + m;
+#              then y[pos_y(r - oi)] (resp. pos_y(j - oj)) is incremented by a
+#              product that reads values[k] and x[pos_x(j - oj)] (resp.
+#              pos_x(r - oi)), pos(t) = inc*t for inc > 0, inc*(t + 1 - len)
+#              for inc < 0 (the BLAS convention)
+from engine.cvc.exec import Region, StructV, FltV
+
+
+def init_sp_gemv(ex, st, params):
+    o = ex.new_obj('A')
+    ex.axioms.append(o.issp)
+    ex.axioms.extend(o.valid_axioms())
+    ex.axioms += [o.sp_ncols <= 2**59, o.sp_nnz <= 2**58]
+    g = {}
+    for p in params:
+        nm = p['name']
+        if nm == 'tA':
+            v = ex.fresh_int('tA', 'char')
+            ex.axioms.append(z3.Or([v.t == ord(c) for c in 'NTC']))
+            st.vars[p['id']] = v
+            g[nm] = v.t
+        elif nm in ('m', 'n', 'oA', 'ix', 'iy'):
+            v = ex.fresh_int(nm, 'int')
+            st.vars[p['id']] = v
+            g[nm] = v.t
+        elif nm in ('alpha', 'beta'):
+            st.vars[p['id']] = StructV('number', {
+                'd': FltV(z3.Real(nm + '.d'), 'double'),
+                'z': FltV(z3.Real(nm + '.z'), 'double complex'),
+                'i': ex.fresh_int(nm + '.i', 'long')})
+        elif nm == 'a':
+            st.vars[p['id']] = PtrV(None, 0, 'ccs', obj=o)
+        elif nm in ('x', 'y'):
+            sz = z3.Int('len(%s)' % nm)
+            esz = z3.If(o.sp_id == 2, 16, 8)
+            r = Region('argbuf', nm, sz * esz)
+            st.vars[p['id']] = PtrV(r, 0, 'void')
+            g[nm] = (r, sz)
+        else:
+            raise Unsupported('parameter %s of the sparse product' % nm)
+    m, n, oA, ix, iy = g['m'], g['n'], g['oA'], g['ix'], g['iy']
+    N_ = g['tA'] == ord('N')
+    lenx = z3.If(N_, n, m)
+    leny = z3.If(N_, m, n)
+
+    def vec(ln, inc):
+        a_ = z3.If(inc >= 0, inc, -inc)
+        return z3.If(ln > 0, 1 + (ln - 1) * a_, 0)
+    nr, nc = o.sp_nrows, o.sp_ncols
+    pre = [m >= 0, n >= 0, oA >= 0, ix != 0, iy != 0,
+           z3.Implies(m != 0, nr >= 1),
+           g['x'][1] >= vec(lenx, ix), g['y'][1] >= vec(leny, iy)]
+    # oi + m <= nrows, oj + n <= ncols  (oi = oA mod nrows, oj = oA div
+    # nrows: the very terms the code computes, so that the solver does not
+    # have to rediscover the division)
+    from engine.cvc.exec import cdiv, crem
+    oi, oj = crem(oA, nr), cdiv(oA, nr)
+    pre += [z3.Implies(m != 0, z3.And(oi + m <= nr, oj + n <= nc))]
+    # the kernel is entered through the table sp_gemv[id]
+    pre += [o.sp_id == (1 if ex.fname == 'sp_dgemv' else 2)]
+    st.pc.extend(pre)
+    st.ghost['gemv'] = dict(g, A=o, oi=oi, oj=oj, lenx=lenx, leny=leny)
+
+
+def post_sp_gemv(ex, finished, extra_obs):
+    def ob(kind, pc, goal, text, line=0, force=None):
+        extra_obs.append(Oblig('%s:%s:%s' % (ex.fname, kind, text), kind,
+                               list(pc), z3.simplify(goal) if not isinstance(
+                                   goal, bool) else z3.BoolVal(goal), text,
+                               line, {'force': force} if force else None))
+    g = None
+    for st, kind, val in finished:
+        g = st.ghost.get('gemv')
+        if g:
+            break
+    if not g:
+        ob('covered', [], False, 'the kernel was executed')
+        return {}
+    o, m, n, oi, oj, ix, iy = g['A'], g['m'], g['n'], g['oi'], g['oj'], \
+        g['ix'], g['iy']
+    cp = z3.Function('colptr(%s)' % o.name, z3.IntSort(), z3.IntSort())
+    ri = z3.Function('rowind(%s)' % o.name, z3.IntSort(), z3.IntSort())
+    xr, yr = g['x'][0], g['y'][0]
+    esz = z3.If(o.sp_id == 2, 16, 8)
+
+    def pos(t, inc, ln):
+        return z3.If(inc > 0, inc * t, inc * (t + 1 - ln))
+    logs = ex.loop_log
+    outer = [E for E in logs if E['counter'] is not None and any(
+        isinstance(b_.get('env'), dict) for b_ in E['body']) and
+        E['ord'] in (0, 2)]
+    nst = 0
+    for E in logs:
+        if E['ord'] in (0, 2):
+            # the column loops: j (i) = oj .. oj + n - 1
+            if E['counter'] is None:
+                ob('iteration-space', [], False, 'the column loop runs a '
+                   'counter up in unit steps', E['line'])
+                continue
+            c = E['head_env'][E['counter']].t
+            ob('iteration-space', E['entry_pc'], E['lo'] == oj,
+               'the column loop starts at column oj = oA div nrows',
+               E['line'])
+            ob('iteration-space', E['head_pc'], E['cond'] == (c < oj + n),
+               'the column loop ends before column oj + n', E['line'])
+        if E['ord'] in (1, 3):
+            # the entry loops: k = colptr[j] .. colptr[j+1] - 1
+            cname = [nm for nm in ('j', 'i') if nm in E['entry_env']]
+            col = None
+            for nm in cname:
+                v = E['entry_env'][nm]
+                if isinstance(v, IntV) and ex.check(
+                        E['head_pc'], [z3.Not(z3.And(v.t >= oj,
+                                                     v.t < oj + n))]) == \
+                        z3.unsat:
+                    col = v.t
+            if E['counter'] is None or col is None:
+                ob('iteration-space', [], False, 'the entry loop runs a '
+                   'counter over the entries of the current column',
+                   E['line'], force='undecided')
+                continue
+            k = E['head_env'][E['counter']].t
+            ob('iteration-space', E['entry_pc'], E['lo'] == cp(col),
+               'the entry loop starts at colptr[column]', E['line'])
+            ob('iteration-space', E['head_pc'], E['cond'] == (
+                k < cp(col + 1)), 'the entry loop ends before '
+               'colptr[column + 1]', E['line'])
+            r = ri(k)
+            inwin = z3.And(r >= oi, r < oi + m)
+            isN = E['ord'] == 1
+            for b in E['body']:
+                ys = [s_ for s_ in b['fstores'] if s_[0] is yr]
+                if len(ys) == 0:
+                    ob('kernel-definition', b['pc'], z3.Not(inwin),
+                       'a stored entry is skipped only if its row lies '
+                       'outside [oi, oi + m)', E['line'])
+                    continue
+                nst += 1
+                ob('kernel-definition', b['pc'], z3.BoolVal(len(ys) == 1),
+                   'one element of y is updated per stored entry', E['line'])
+                r_, off_, sz_, val_, pc_, ln_, loads_ = ys[-1]
+                ty = (r - oi) if isN else (col - oj)
+                tx = (col - oj) if isN else (r - oi)
+                leny = m if isN else n
+                lenx = n if isN else m
+                goal = z3.And(inwin, off_ == esz * pos(ty, iy, leny))
+                ob('kernel-definition', pc_, goal,
+                   'an entry (r, j) inside the block updates y at the '
+                   'position of %s (BLAS stride convention)' % (
+                       'its row r - oi' if isN else 'its column j - oj'),
+                   ln_)
+                xl = [l_ for l_ in loads_ if l_[0] is xr]
+                vl = [l_ for l_ in loads_ if l_[0].name.endswith('.values')]
+                yl = [l_ for l_ in loads_ if l_[0] is yr]
+                gx = z3.Or([l_[1] == esz * pos(tx, ix, lenx) for l_ in xl]) \
+                    if xl else z3.BoolVal(False)
+                gv = z3.Or([l_[1] == esz * k for l_ in vl]) if vl else \
+                    z3.BoolVal(False)
+                gy = z3.Or([l_[1] == off_ for l_ in yl]) if yl else \
+                    z3.BoolVal(False)
+                ob('kernel-definition', pc_, z3.And(gx, gv, gy),
+                   'the increment multiplies values[k] with x at the '
+                   'position of %s and is added to the old y entry' % (
+                       'the column j - oj' if isN else 'the row r - oi'),
+                   ln_)
+    # y := beta*y over the strided extent of y, first
+    seen_sc = 0
+    done = set()
+    for st, kind, val in finished:
+        for rec in st.calls:
+            if id(rec) in done or not rec.name.endswith('scal_'):
+                continue
+            done.add(id(rec))
+            seen_sc += 1
+            ints, ptrs = rec.args['ints'], rec.args['ptrs']
+            yp = ptrs.get('x')
+            leny_ = z3.If(g['tA'] == ord('N'), m, n)
+            absy = z3.If(iy >= 0, iy, -iy)
+            goal = z3.And(ints['n'] == leny_, ints['incx'] == absy,
+                          z3.BoolVal(isinstance(yp, PtrV) and
+                                     yp.region is yr),
+                          yp.off == 0 if isinstance(yp, PtrV) else False)
+            ob('kernel-definition', rec.pc, goal,
+               'y is scaled by beta over its whole strided extent: '
+               'scal(len y, beta, y, |incy|) (the BLAS routine does nothing '
+               'for a non-positive increment)', rec.line)
+    ob('covered', [], seen_sc >= 1, 'the scaling of y by beta is reached')
+    ob('covered', [], nst >= 2, 'both transposition cases update y (%d '
+       'store paths)' % nst)
+    return {'loops': len(logs)}
+
+
+for _f in ('sp_dgemv', 'sp_zgemv'):
+    from contracts.c import base_spec as _B
+    FUNCS[_f] = {'init': init_sp_gemv, 'post': post_sp_gemv,
+                 'externs': dict(_B.LOCAL_EXTERNS,
+                                 **{'read:spbuf': read_spbuf}),
+                 'config': {}}
